@@ -31,8 +31,7 @@ THEOREMS = [
     "impl_cells_agree",
 ]
 
-FIRST_ALGO = ["groestl224", "jh256", "groestl256", "skein512", "groestl384", "chacha20", "groestl512", "ietf",
-              "blake256", "xchacha20", "blake512"]          # item (6*tid) mod 11 of thread tid
+FIRST_ALGO = ['groestl224', 'skein512', 'xchacha20', 'jh256', 'ietf', 'blake512', 'chacha12', 'blake256', 'chacha8', 'groestl512', 'chacha20', 'groestl384', 'skein512-256', 'groestl256', 'skein512-32']          # item (7*tid) mod 15 of thread tid
 
 
 def _trials(rng, tier):
@@ -59,13 +58,13 @@ def gen_C18(rng, tier, cfg):
         dist_n[str(n)] = dist_n.get(str(n), 0) + 1
         dist_r[str(r)] = dist_r.get(str(r), 0) + 1
         for tid in range(n):
-            first.add(FIRST_ALGO[tid % 11])
+            first.add(FIRST_ALGO[tid % 15])
     stats = {
         "cold_trials": len(trials),
         "nthreads": dist_n,
         "rounds": dist_r,
         "thread_runs": sum(t[0] for t in trials),
-        "results_compared": sum(t[0] for t in trials) * 22,
+        "results_compared": sum(t[0] for t in trials) * 30,
         "first_algorithm_of_some_thread": sorted(first),
     }
     return ops, stats
@@ -111,9 +110,9 @@ def extra(pid, tier, seed):
             op = "conc %d %d %d" % (n, rng.below(10**6), 1 + rng.below(3))
             model, _ = cclib.run_lines(cclib.DRV, header + [op])
             # the same trial repeated, plus FOCUSED variants: every thread's first call goes into one
-            # algorithm (each of the 11 in turn), with and without warming the CPU-feature cache first —
+            # algorithm (each of the 15 in turn), with and without warming the CPU-feature cache first —
             # the schedule in which one-time initialisation races; same expected results
-            iops = [op] * reps + ["%s %d %d" % (op, f, w) for f in range(11) for w in (0, 1)] * (2 if tier != "thorough" else 6)
+            iops = [op] * reps + ["%s %d %d" % (op, f, w) for f in range(15) for w in (0, 1)] * (2 if tier != "thorough" else 6)
             reps = len(iops)
             impl, _ = cclib.run_lines(binp, header + iops)
             if model is None or impl is None or len(model) != 2 or len(impl) != 1 + reps:
